@@ -229,3 +229,21 @@ func nestedInsert() {
 	keep2()
 	keep3()
 }
+
+func precedence(a, b int, p *int, q **int, s []int, t T) {
+	_ = *load(p)
+	_ = **loadpp(q)
+	_ = -load(&a)
+	_ = !ok(a)
+	_ = <-recvOf(a)
+	_ = &T{load(p)}
+	_ = load(p).x
+	_ = load(p)[0]
+	_ = load(p)(1)
+	_ = load(p).(int)
+	_ = s[load(p):]
+	_ = 2 * load(p)
+	_ = b - load(p)
+	_ = []int{load(p), -load(p)}
+	deref(*load(p), b)
+}
